@@ -12,6 +12,7 @@ GEN = os.path.join(WORK, "gen") if WORK else os.path.join(SPEC, "gen")
 BUILD = os.path.join(WORK or VERIF, "build")
 OUT = os.path.join(WORK or VERIF, "out")
 EVID = os.path.join(WORK or VERIF, "evidence")
+COV = os.environ.get("VERIF_COV") == "1"      # coverage builds of the drivers (anchor coverage pass, see tools/anchorcov.py)
 HARNESS = os.path.join(VERIF, "harness")
 TLA_JAR = "/opt/veriftools/tla/tla2tools.jar"
 NCPU = os.cpu_count() or 4
@@ -215,21 +216,23 @@ def build_driver(name, src, defines=(), lb=True, opt="-O1", extra_src=(), libs=(
     inc = config_h_flags(bdir) + ["-I", os.path.join(REPO, "include"), "-I", os.path.join(REPO, "src"), "-I", HARNESS]
     base = ["gcc", "-g", opt, "-fno-omit-frame-pointer", "-D_GNU_SOURCE", "-DREPO_SRC(x)=#x", "-Wall", "-Wno-unused-function", "-Wno-unused-variable"]
     rt = os.path.join(bdir, "vrt.o")
-    r = sh(["gcc", "-g", "-O1", "-D_GNU_SOURCE", "-I", HARNESS, "-c", os.path.join(HARNESS, "vrt.c"), "-o", rt], capture_output=True, text=True)
+    r = sh(["gcc", "-g", "-O1", "-D_GNU_SOURCE"] + (["-DVRT_COV"] if COV else []) + ["-I", HARNESS, "-c", os.path.join(HARNESS, "vrt.c"), "-o", rt], capture_output=True, text=True)
     if r.returncode:
         raise RuntimeError("runtime build failed:\n" + r.stderr)
     objs = [rt]
     for s in [src] + list(extra_src):
         o = os.path.join(bdir, os.path.basename(s) + ".o")
         cmd = base + inc + (["-DURCU_VERIF"] if hooks else []) + ["-D" + d for d in defines]
-        if lb:
+        if COV:
+            cmd += ["--coverage"]
+        if lb and not COV:      # coverage counters would show up as plain stores (and drain the software store buffers): no L-B in coverage builds
             cmd += ["-fsanitize=thread"]
         cmd += ["-c", s if os.path.isabs(s) else os.path.join(HARNESS, s), "-o", o]
         r = sh(cmd, capture_output=True, text=True)
         if r.returncode:
             raise RuntimeError("driver build failed (%s):\n%s" % (s, r.stderr[-4000:]))
         objs.append(o)
-    r = sh(["gcc", "-g", "-o", exe] + objs + ["-lpthread"] + list(libs), capture_output=True, text=True)
+    r = sh(["gcc", "-g", "-o", exe] + (["--coverage"] if COV else []) + objs + ["-lpthread"] + list(libs), capture_output=True, text=True)
     if r.returncode:
         raise RuntimeError("driver link failed:\n" + r.stderr[-4000:])
     return exe
